@@ -226,6 +226,11 @@ pub fn c07(tier: &str) -> i32 {
     p3.create_place = false;
     p3.reload_modes = vec![0];
     plans.push(plan("tick 3, event route, in-memory reload", p3, 3, if t { 4 } else { 3 }));
+    {
+        let mut q = p.clone();
+        q.reload_modes = vec![0];
+        with_traders(&mut plans, "in-memory reload", &q, 3, if t { 4 } else { 3 });
+    }
     for l in [1usize, 2, 24] {
         let mut q = p.clone();
         q.name = format!("snapshot-L{}", l);
